@@ -331,6 +331,48 @@ def esc(ctx, prog, lib):
                     ctx.violation("ESC-1", (clo.path, "class " + repr(c)), "inside a bracket class %r is rendered as %s, expected a backslash escape" % (c, sorted(vals)), clo.loc())
 
 
+def esc3(ctx, lib):
+    """ESC-3: escaping reaches every nesting level the printer prints."""
+    from sa import callgraph
+    G = "grapheme::Grapheme"
+    printer = None
+    for b in lib.bodies:
+        if b.impl_trait == "std::fmt::Display" and b.impl_self == G and b.path.endswith("::fmt"):
+            printer = b
+    entries = find_escape_entry(lib)
+    if printer is None or len(entries) != 1:
+        ctx.anchor_lost("ESC-3", "Grapheme printer / escape entry")
+        return
+    E = entries[0]
+    cg = callgraph.CallGraph(lib)
+    # does the printer print nested graphemes (recursion through Display of Grapheme)?
+    recursive_print = False
+    for p_ in [printer] + [c for c in lib.bodies if c.kind == "closure" and c.parent == printer.path]:
+        for _, t in p_.calls():
+            n = callee_name(t) or ""
+            targs = " ".join(t["callee"].get("res_args") or t["callee"].get("args") or [])
+            if (n.endswith("ToString>::to_string") and G in targs) or n == printer.path:
+                recursive_print = True
+    if not recursive_print:
+        ctx.ok("ESC-3", printer.path + ":printer is not recursive", None, printer.loc())
+        return
+    # escaping must then be recursive too: the escape entry (or the function applying it) lies on a call-graph cycle
+    def on_cycle(path):
+        for callee in cg.edges.get(path, ()):
+            if path in cg.reachable([callee]):
+                return True
+        return False
+    appliers = {b.path for b, _, _ in guards.call_sites(lib, E.path)}
+    appliers |= {lib.body(a).parent for a in list(appliers) if lib.body(a) is not None and lib.body(a).kind == "closure" and lib.body(a).parent}
+    if on_cycle(E.path) or any(on_cycle(a) for a in appliers if a):
+        ctx.ok("ESC-3", E.path + ":escaping recurses into nested repetitions", None, E.loc())
+    else:
+        ctx.violation("ESC-3", (E.path, "nested repetitions"),
+                      "the printer descends into nested repetitions at any depth (Display of Grapheme is recursive), but escaping is applied to the grapheme "
+                      "and one level of its repetitions only: metacharacters and non-ASCII characters two levels down are printed raw "
+                      "(grex -r '..b..bc..b..bc' -> ^(?:(?:.{2}b){2}c){2}$)", E.loc())
+
+
 def chars_compared_in_loop(hb):
     out = set()
     fi = guards.FnInfo.of(hb)
@@ -361,9 +403,11 @@ def run(ctx):
     ctx.rule("FIN-2", "inserting a test case marks its last state final on every path, and the loop over test cases calls the insertion in every iteration")
     ctx.rule("ESC-1", "every character of regex_syntax::is_meta_character (version per lock file) is escaped in literals by the constant table or a per-occurrence "
                       "mechanism, except '#' (verbose only, C06) and '&','~' (special only doubled inside classes); inside bracket classes [ ] \\ ^ - are escaped")
+    ctx.rule("ESC-3", "if the grapheme printer is recursive over nested repetitions, the application of the escaper is recursive as well (call-graph cycle)")
     ctx.rule("ESC-2", "escaping is per occurrence (str::replace / char loop), applied to and stored back for every stored string of a grapheme")
     ctx.assume("minimisation, state elimination and printing preserve membership of the test cases (not decided: see C16)")
     prog = common.view(ctx, "default")
     lib = prog.lib
     fin(ctx, lib)
     esc(ctx, prog, lib)
+    esc3(ctx, lib)
